@@ -43,7 +43,7 @@ R.contract("PeerConnection.close", params={"self": "PeerConnection", "signal_nod
 # the dispatcher as seen by the framing loop: every call is a delivery (ghost log); what the handler does to the
 # node is irrelevant here except that it leaves the read buffer alone and does not raise (C14 proves the latter
 # for Node._receive_message)
-_HANDLER_MODS = ["*PeerConnection.state", "*PeerConnection._last_dwr", "*PeerConnection.host_identity",
+_HANDLER_MODS = ["*Avp._avps", "*PeerConnection.state", "*PeerConnection._last_dwr", "*PeerConnection.host_identity",
                  "*PeerConnection.node_name", "*PeerConnection.origin_host", "*PeerConnection.auth_application_ids",
                  "*PeerConnection.acct_application_ids", "*PeerConnection.host_ip_address"]
 R.contract("PeerConnection.__dispatch_message", params={"self": "PeerConnection", "msg": "Message"},
